@@ -233,3 +233,17 @@ Definition run_spec (ops : list (op key)) : list obs := snd (run spec_step [] op
 Definition run_local (ops : list (op key)) : list obs := snd (run local_step_str linit (map (map_op join) ops)).
 Definition run_s3 (raw_prefix : str) (F : bucket) (ops : list (op key)) : list obs :=
   snd (run (s3_step (gen_init_prefix raw_prefix)) F (map (map_op join) ops)).
+
+(* ---------------------------------------------------------------- decidable forms of the hypotheses
+   (used by the non-vacuity example and by the harness to tell which generated cases lie inside the
+   theorems' domain) *)
+Definition wf_keyb (k : key) : bool := match k with [] => false | _ => forallb wf_segb k end.
+Definition wf_opb (o : op key) : bool :=
+  match o with
+  | ListDir d => forallb wf_segb d
+  | Write k _ | Read k | Exists k | Delete k | Size k | Mtime k => wf_keyb k
+  end.
+Definition prefix_freeb (ks : list key) : bool := forallb (fun a => forallb (fun b => negb (under a b)) ks) ks.
+Definition foreign_okb (pfx : str) (F : bucket) : bool :=
+  forallb (fun k => negb (starts_with k (table_root pfx))) (map fst F).
+Definition op_keys (ops : list (op key)) : list key := flat_map op_key ops.
